@@ -301,4 +301,19 @@ def writeQuarantineEscape (runs : List Quarantine) (numSteps : Nat) : Except Err
     | .error e, _ => .error e
     | _, .error e => .error e) header
 
+/-! #### Area ids that are not registered (finding F30)
+
+  `quarantine_boundary` registers the ids `> 0` only (`boundaryTableStep`); `action` treats only
+  the value 0 as "no quarantine area" (`escapeLoop`) and then evaluates
+  `boundaries.at(boundary_id_idx_map[area])`. For an id that is not a key - any NEGATIVE id, or a
+  positive id of a raster other than the constructor's - `std::map::operator[]` inserts the key with
+  the value-initialised index 0. The insertion itself is not observable: index 0 is also what every
+  later lookup of that key yields, `boundaries` is not touched, and `quarantine_boundary` does not
+  run again - so the model keeps the table as it is and `lookupBox` falls back to entry 0, or to
+  `none` (`boundaries.at(0)` throws `std::out_of_range`) when no id was registered. The loop meets
+  the cells in list order: an infected cell with an unregistered id that comes BEFORE an infected
+  cell with value 0 throws (empty table) before the escape is seen, one that comes after it is
+  never looked at. Both behaviours are mirrored as they are; `C18_negative_area_id_witness`
+  evaluates them and `C18_escape_full_fails` shows the property's statement fails there. -/
+
 end Pops.Metric
